@@ -20,6 +20,10 @@ type tlabel struct {
 	param   int    // -1 for an intrinsic source
 	bounded bool   // value provably small (<= 16 bit source, masked, …)
 	origin  string // human readable origin of the first source found
+	// validated where it was decoded (field-carried values only): the decoding function
+	// compares it on every path to its success returns
+	allocOK bool
+	divOK   bool
 }
 
 type tset []tlabel
@@ -29,7 +33,7 @@ func (s tset) tainted() bool { return len(s) > 0 }
 // unboundedSrc: contains an intrinsic, not width-bounded source.
 func (s tset) unboundedSrc() (string, bool) {
 	for _, l := range s {
-		if l.param < 0 && !l.bounded {
+		if l.param < 0 && !l.bounded && !l.allocOK {
 			return l.origin, true
 		}
 	}
@@ -39,6 +43,16 @@ func (s tset) unboundedSrc() (string, bool) {
 func (s tset) anySrc() (string, bool) {
 	for _, l := range s {
 		if l.param < 0 {
+			return l.origin, true
+		}
+	}
+	return "", false
+}
+
+// divSrc: an intrinsic source that was not validated against zero where it was decoded.
+func (s tset) divSrc() (string, bool) {
+	for _, l := range s {
+		if l.param < 0 && !l.divOK {
 			return l.origin, true
 		}
 	}
@@ -62,6 +76,8 @@ func mergeT(a, b tset) tset {
 		for i, o := range out {
 			if o.param == l.param {
 				dup = true
+				out[i].allocOK = out[i].allocOK && l.allocOK
+				out[i].divOK = out[i].divOK && l.divOK
 				if !l.bounded {
 					out[i].bounded = false
 					if l.param < 0 {
@@ -284,17 +300,25 @@ func (t *taintEngine) propagateFields() {
 					}
 					ls := t.taint(st.Val)
 					if o, ok := ls.anySrc(); ok {
-						// a value that was compared on every path to this store is validated at
-						// decode time: the derived field is not a raw header value any more
-						if unc, _ := t.uncheckedKind(fn, st, st.Val, "alloc"); !unc {
+						key := tn + "." + f
+						// a value that is compared on every path to this store, or between the
+						// store and every success return of the decoding function, is validated
+						// at decode time: the derived field is not a raw header value any more
+						okFor := func(kind string) bool {
+							if unc, _ := t.uncheckedKind(fn, st, st.Val, kind); !unc {
+								return true
+							}
+							return t.postValidated(fn, st, "f:"+key, kind)
+						}
+						aOK, dOK := okFor("alloc"), okFor("div")
+						if aOK && dOK {
 							continue
 						}
-						key := tn + "." + f
 						_, unb := ls.unboundedSrc()
 						old := t.fieldTaint[key]
-						nl := tset{{param: -1, bounded: !unb, origin: o + " via " + key}}
+						nl := tset{{param: -1, bounded: !unb, origin: o + " via " + key, allocOK: aOK, divOK: dOK}}
 						merged := mergeT(old, nl)
-						if len(merged) != len(old) || (len(old) > 0 && old[0].bounded != merged[0].bounded) {
+						if len(merged) != len(old) || (len(old) > 0 && (old[0].bounded != merged[0].bounded || old[0].allocOK != merged[0].allocOK || old[0].divOK != merged[0].divOK)) {
 							t.fieldTaint[key] = merged
 							changed = true
 						}
@@ -719,6 +743,41 @@ func (t *taintEngine) uncheckedKind(fn *ssa.Function, sink ssa.Instruction, v ss
 	return false, nil
 }
 
+// postValidated: after the store `st` into the field with memory key fkey, is every success
+// return of fn unreachable without passing a comparison on the stored quantity (the value
+// or a re-load of that field)?
+func (t *taintEngine) postValidated(fn *ssa.Function, st *ssa.Store, fkey, kind string) bool {
+	g, keys := t.derivGroup(st.Val)
+	keys[fkey] = true
+	cb := t.comparisonBlocks(fn, g, keys, kind)
+	if len(cb) == 0 {
+		return false
+	}
+	del := map[edge]bool{}
+	for bi := range cb {
+		for si := range fn.Blocks[bi].Succs {
+			del[edge{bi, si}] = true
+		}
+	}
+	// the store's own block may be the comparison block (store, then `if field == 0`)
+	var seen map[int]bool
+	if cb[st.Block().Index] {
+		seen = map[int]bool{}
+	} else {
+		seen = reachAfter(fn, st, del, nil)
+	}
+	succ := t.p.successReturns(fn)
+	if len(succ) == 0 {
+		return false
+	}
+	for _, r := range succ {
+		if seen[r.Block().Index] || (r.Block() == st.Block() && !cb[st.Block().Index]) {
+			return false
+		}
+	}
+	return true
+}
+
 // ---------------------------------------------------------------------------------
 
 type taintFinding struct {
@@ -754,12 +813,20 @@ func (t *taintEngine) scan() []taintFinding {
 		if kind == "alloc" {
 			origin, isSrc = ls.unboundedSrc()
 		} else {
-			origin, isSrc = ls.anySrc()
+			origin, isSrc = ls.divSrc()
 		}
 		if isSrc {
 			unc, path := t.uncheckedKind(fn, in, v, kind)
 			f := taintFinding{Fn: fn, Instr: in, Kind: kind, What: what, Origin: origin, Path: path, OK: !unc}
 			out = append(out, f)
+		} else {
+			// a source that was validated where it was decoded: a discharged instance
+			for _, l := range ls {
+				if l.param < 0 && ((kind == "alloc" && l.allocOK && !l.bounded) || (kind == "div" && l.divOK)) {
+					out = append(out, taintFinding{Fn: fn, Instr: in, Kind: kind, What: what, Origin: l.origin + " (validated in the decoding function)", OK: true})
+					break
+				}
+			}
 		}
 		for _, l := range ls.params() {
 			if kind == "alloc" && l.bounded {
@@ -833,9 +900,17 @@ func (t *taintEngine) scan() []taintFinding {
 							if s.kind == "alloc" {
 								origin, isSrc = ls.unboundedSrc()
 							} else {
-								origin, isSrc = ls.anySrc()
+								origin, isSrc = ls.divSrc()
 							}
 							nc++
+							if !isSrc {
+								for _, l := range ls {
+									if l.param < 0 && ((s.kind == "alloc" && l.allocOK && !l.bounded) || (s.kind == "div" && l.divOK)) {
+										out = append(out, taintFinding{Fn: fn, Instr: call, Kind: s.kind, What: fmt.Sprintf("call %s -> %s", p.FName(sc), s.what), Origin: l.origin + " (validated in the decoding function)", OK: true})
+										break
+									}
+								}
+							}
 							if isSrc {
 								unc, path := t.uncheckedKind(fn, call, arg, s.kind)
 								out = append(out, taintFinding{Fn: fn, Instr: call, Kind: s.kind, What: fmt.Sprintf("call %s -> %s", p.FName(sc), s.what), Origin: origin, Path: path, OK: !unc,
